@@ -310,6 +310,11 @@ def run(ctx, prop):
                 oracle_fail.append({"case": {"id": cov["id"]}, "failures": [
                     {"where": "compiled skeletons", "error": "the generated stubs and skeletons of the coverage corpus do not build, so no op-code "
                      "reaches any method", "units": B.failed_units(b)[:2]}]})
+    # ---- process history (vlib/history.py): a compilation must not depend on what the same
+    # process compiled before (same names with other shapes, same paths with other content, a
+    # compilation that failed half-way in between)
+    from .. import history as H_
+    H_.history_pass(ctx, oracle_fail, hist)
     return finish(ctx, prop, gate, oracle_fail, disagree, samples, len(distinct), hist)
 
 
